@@ -124,6 +124,9 @@ func runStructural(id string, prog *Program, specs *SpecSet, known *KnownFile) e
 									offenders = append(offenders, funcKey(fn))
 								}
 							default:
+								if isAtomicRead(ref) {
+									continue // x.f.Load(): an atomic read through the field's address
+								}
 								if !allowed[topKey(fn)] && !allowed[funcKey(fn)] {
 									offenders = append(offenders, funcKey(fn)+" (address escapes)")
 								}
